@@ -72,3 +72,24 @@ def run_quoter_level(out, sc, tier, seed, prop, bounds=None, unq=False):
     if sum(r.records for r in results) != len(recs):
         raise MachineryFailure("TLC consumed a different number of records than were produced")
     out.add_trace_results("quoter-level", results, recs)
+
+
+UNQ_STEP_INVS = ["Inv_PyPending", "Inv_CPending", "Inv_PyProgress", "Inv_CProgress", "Inv_CUnchangedPrefix", "Inv_PyClosed",
+                 "Inv_CClosed", "Inv_Same", "Inv_Decode"]
+
+
+def run_unquoter_steps(out, sc, tier):
+    """R1: the two unquoters as STEP machines (incremental-decoder buffer / 4-byte C array, flush-and-retry, `changed`):
+    loop invariants that tie every loop head to the closed form, pending-buffer bounds, joint termination, Level A decoding"""
+    from ..core import model_check
+
+    def cfg(items, tokens, invs, overrides=()):
+        return "\n".join(["SPECIFICATION Spec", f"CONSTANT MaxItems = {items}", f"CONSTANT Tokens <- {tokens}"]
+                         + [f"CONSTANT {o}" for o in overrides] + [f"INVARIANT {i}" for i in invs] + ["CHECK_DEADLOCK FALSE"]) + "\n"
+    items, toks = (3, "SmallTokens") if tier == "quick" else (4, "UnqTokens")
+    res = model_check("UnquoterSteps", cfg(items, toks, UNQ_STEP_INVS), sc.work, timeout=7200)
+    out.add_model(f"UnquoterSteps[{toks}, items<={items}]", res,
+                  what="step machines of _quoting_py._Unquoter and _quoting_c._Unquoter, 4 configurations: " + ", ".join(UNQ_STEP_INVS))
+    res = model_check("UnquoterSteps", cfg(3, "SmallTokens", ["Inv_PyProgress", "Inv_PyClosed"], ["FlushShort <- One"]), sc.work)
+    out.add_model("UnquoterSteps[negative: flush slice one escape short]", res, expect_violation=("Inv_PyProgress", "Inv_PyClosed"),
+                  what="non-vacuity: a wrong start_pct in the error branch is found by TLC")
